@@ -35,7 +35,6 @@ import (
 	"strings"
 	"time"
 
-	"github.com/zeromicro/go-zero/rest/handler"
 	"github.com/zeromicro/go-zero/verifshim/vsched"
 	"github.com/zeromicro/go-zero/verifshim/vx"
 )
@@ -65,6 +64,7 @@ type fSpec struct {
 	Mode   string // "" one request | seq: second request served after the first returned | par: served by a second thread
 	Parent string // none | cancel-during (first request)
 	P, T   int    // explicit bounds (0: the tier's defaults)
+	Chain  string // "" bare handler.TimeoutHandler | tr / all / mw: the middleware chain rest/engine.go assembles (chain.go)
 }
 
 func (s fSpec) name() string {
@@ -75,6 +75,9 @@ func (s fSpec) name() string {
 	n := "flush-" + strings.Join(p, "+")
 	if s.Mode != "" {
 		n = "flush2" + s.Mode + "-" + strings.Join(p, "+")
+	}
+	if s.Chain != "" {
+		n = "chain:" + s.Chain + "-" + strings.Join(p, "+")
 	}
 	if s.Parent != "none" && s.Parent != "" {
 		n += "-parent:" + s.Parent
@@ -152,6 +155,10 @@ func (r *frec) commit(c int) {
 func (r *frec) WriteHeader(c int) {
 	vsched.Op("client-WriteHeader")
 	r.o.add(tle{req: r.req, what: 'h', role: r.role(), code: c})
+	if !r.wrote && (c < 100 || c > 599) {
+		// net/http: a repeated WriteHeader is dropped first, an invalid code on the first one panics
+		panic(fmt.Sprintf("invalid WriteHeader code %v", c))
+	}
 	r.commit(c)
 }
 
@@ -196,7 +203,7 @@ func flushScenario(s fSpec) vx.Scenario {
 				c()
 			})
 		}
-		h := handler.TimeoutHandler(dt)(http.HandlerFunc(func(w http.ResponseWriter, r *http.Request) {
+		inner := http.HandlerFunc(func(w http.ResponseWriter, r *http.Request) {
 			i := int(r.URL.Path[1] - '0')
 			q, st := s.Reqs[i], o.rq[i]
 			st.handlerTid = vsched.ThreadID()
@@ -227,6 +234,11 @@ func flushScenario(s fSpec) vx.Scenario {
 						if f, ok := w.(http.Flusher); ok {
 							f.Flush()
 						}
+					case 'Z', 'Y', 'X':
+						// a status code outside [100, 599] (an unset int, an off-by-one, a garbage value)
+						w.WriteHeader(invalidCode(byte(a)))
+					case 'P':
+						panic("handler panic")
 					}
 					o.add(tle{req: i, what: 'd', idx: base + j, act: byte(a), werr: werr})
 				}
@@ -243,7 +255,8 @@ func flushScenario(s fSpec) vx.Scenario {
 				vsched.Recv(r.Context().Done())
 				run(q.Late, 100)
 			}
-		}))
+		})
+		h := buildChain(s.Chain, len(s.Reqs), inner)
 		serve := func(i int) {
 			st := o.rq[i]
 			ctx := context.Background()
@@ -314,11 +327,20 @@ type refResult struct {
 	flushes bool
 }
 
-func reference(req int, q fReq, withLate bool) refResult {
+// reference: panicAt = index of the action that panicked instead of completing (-1: none; the script is
+// cut there: a panicking action has no effect and nothing after it runs); recovered = a recover
+// middleware inside the timeout middleware turned the handler's panic (an action's, or the ending's)
+// into WriteHeader(500), which counts only if nothing was committed before.
+func reference(req int, q fReq, withLate bool, panicAt int, recovered bool) refResult {
 	r := refResult{code: 200}
 	committed := false
+	cut := false
 	do := func(script string, base int) {
 		for j, a := range script {
+			if cut || base+j == panicAt {
+				cut = true
+				return
+			}
 			switch a {
 			case 'H':
 				if !committed {
@@ -343,11 +365,19 @@ func reference(req int, q fReq, withLate bool) refResult {
 				committed = true
 				r.flushes = true
 			}
+			// Z, Y, X that completed: an invalid status code that the writer dropped (after the
+			// response was committed net/http drops it too): no effect
 		}
 	}
 	do(q.Pre, 0)
+	if q.End == "panic" {
+		cut = true
+	}
 	if withLate {
 		do(q.Late, 100)
+	}
+	if recovered && !committed {
+		r.code = 500
 	}
 	return r
 }
@@ -432,6 +462,16 @@ func judgeFlushReq(s fSpec, i int, o *fObs) vx.Verdict {
 			done[t.idx] = p
 		}
 	}
+	// an action that was issued and never completed panicked (every thread has finished in a judged execution)
+	panicAt := -1
+	for idx := range issued {
+		if _, fin := done[idx]; !fin && (panicAt < 0 || idx < panicAt) {
+			panicAt = idx
+		}
+	}
+	hasRecover, needM := chainHasRecover(s.Chain), chainHasUserMW(s.Chain)
+	handlerPanicked := panicAt >= 0 || q.End == "panic"
+	recovered := handlerPanicked && hasRecover
 	// what the handler's thread pushed to the client before / after the timeout result
 	var streamed, late, afterRet strings.Builder
 	streamCommit, lateTouch := false, 0
@@ -491,8 +531,11 @@ func judgeFlushReq(s fSpec, i int, o *fObs) vx.Verdict {
 		ctxEnded, clientCancelled = true, true
 	}
 	body := rec.body.String()
-	full := reference(i, q, q.End == "ctxwait" || q.End == "stall")
-	hdrA, hdrL := rec.snap.Get("X-A"), rec.snap.Get("X-Late")
+	full := reference(i, q, q.End == "ctxwait" || q.End == "stall", panicAt, recovered)
+	hdrA, hdrL, hdrM := rec.snap.Get("X-A"), rec.snap.Get("X-Late"), rec.snap.Get("X-MW")
+	if recovered {
+		touch += "+recovered"
+	}
 	// streamed part: whole-chunk prefix of the script's body, under the script's status and headers
 	checkStream := func() *vx.Verdict {
 		k, acc := 0, ""
@@ -506,17 +549,22 @@ func judgeFlushReq(s fSpec, i int, o *fObs) vx.Verdict {
 		if rec.code != full.code {
 			return &vx.Verdict{Class: "flush-drops-status", Msg: fmt.Sprintf("%sthe response was committed by a Flush with status %d, the handler's status is %d (body so far %q)", pfx, rec.code, full.code, body)}
 		}
-		if (full.needA && hdrA == "") || (full.needL && hdrL == "") {
+		if (full.needA && hdrA == "") || (full.needL && hdrL == "") || (needM && hdrM == "") {
 			return &vx.Verdict{Class: "flush-drops-header", Msg: fmt.Sprintf("%sthe response was committed by a Flush without a header the handler had set before: %s", pfx, hdrStr(rec.snap))}
 		}
 		return nil
 	}
 	switch {
 	case st.panicked != nil:
-		if q.End != "panic" {
+		if !handlerPanicked {
 			return vx.Verdict{Class: "unexpected-panic", Msg: fmt.Sprintf("%sServeHTTP panicked: %v", pfx, st.panicked)}
 		}
-		if fmt.Sprint(st.panicked) != "handler panic" {
+		if hasRecover {
+			return vx.Verdict{Class: "unexpected-panic", Msg: fmt.Sprintf("%sthe recover middleware sits inside the timeout middleware, yet ServeHTTP panicked: %v", pfx, st.panicked)}
+		}
+		// the value of a panic raised by the writer (invalid status code) is the writer's business
+		byWriter := panicAt >= 0 && strings.IndexByte("ZYX", actAt(q, panicAt)) >= 0
+		if !byWriter && fmt.Sprint(st.panicked) != "handler panic" {
 			return vx.Verdict{Class: "panic-value-changed", Msg: fmt.Sprintf("%sre-raised %v", pfx, st.panicked)}
 		}
 		if !streamCommit {
@@ -541,7 +589,7 @@ func judgeFlushReq(s fSpec, i int, o *fObs) vx.Verdict {
 		}
 		if !streamCommit {
 			// all-or-nothing
-			if rec.code == emitCode && body == timeoutBody && hdrA == "" && hdrL == "" {
+			if rec.code == emitCode && body == timeoutBody && hdrA == "" && hdrL == "" && hdrM == "" {
 				return vx.Verdict{Sig: fmt.Sprintf("timeout:%d%s", emitCode, touch)}
 			}
 			// a Flush in progress (it copies the handler's headers, then writes)?
@@ -562,13 +610,14 @@ func judgeFlushReq(s fSpec, i int, o *fObs) vx.Verdict {
 		return vx.Verdict{Sig: "partial+timeout" + touch}
 	default:
 		// the wrapper took the handler's completion
-		if q.End == "stall" {
+		prePanic := panicAt >= 0 && panicAt < 100 // the handler died before it reached its ending
+		if q.End == "stall" && !prePanic {
 			return vx.Verdict{Class: "mixture", Msg: pfx + "complete-looking response although the handler had not finished"}
 		}
-		if q.End == "panic" {
+		if handlerPanicked && !hasRecover {
 			return vx.Verdict{Class: "panic-swallowed", Msg: pfx + "handler panicked but ServeHTTP returned normally"}
 		}
-		if q.End == "ctxwait" && !ctxEnded {
+		if q.End == "ctxwait" && !ctxEnded && !prePanic {
 			return vx.Verdict{Class: "mixture", Msg: pfx + "handler waited for the context to end, yet ServeHTTP completed without any expiry or cancel"}
 		}
 		if streamCommit {
@@ -577,14 +626,25 @@ func judgeFlushReq(s fSpec, i int, o *fObs) vx.Verdict {
 			}
 		}
 		want := strings.Join(full.chunks, "")
-		if !rec.wrote && want == "" && full.code == 200 && !full.needA && !full.needL {
-			return vx.Verdict{Sig: "full-empty"}
+		if !rec.wrote && want == "" && full.code == 200 && !full.needA && !full.needL && !needM {
+			return vx.Verdict{Sig: "full-empty" + touch}
 		}
-		if rec.wrote && body == want && rec.code == full.code && (!full.needA || hdrA != "") && (!full.needL || hdrL != "") {
+		if rec.wrote && body == want && rec.code == full.code && (!full.needA || hdrA != "") && (!full.needL || hdrL != "") && (!needM || hdrM != "") {
 			if streamCommit {
-				return vx.Verdict{Sig: "full-streamed"}
+				return vx.Verdict{Sig: "full-streamed" + touch}
 			}
-			return vx.Verdict{Sig: "full"}
+			return vx.Verdict{Sig: "full" + touch}
+		}
+		if recovered {
+			// the statement does not fix WHERE in the chain the recover middleware sits: had the wrapper
+			// re-raised the panic (nothing written unless flushed before) and a recover middleware
+			// OUTSIDE it answered 500 on the raw connection, that is all-or-nothing as well
+			if !streamCommit && rec.wrote && rec.code == 500 && body == "" && hdrA == "" && hdrL == "" {
+				return vx.Verdict{Sig: "repanic+recovered-outside"}
+			}
+			if streamCommit && body == streamed.String() {
+				return vx.Verdict{Sig: "partial+repanic+recovered-outside"}
+			}
 		}
 		return vx.Verdict{Class: "mixture", Msg: fmt.Sprintf("%shandler completed in time but the client saw code=%d headers=%s body=%q wrote=%v, want %d %q", pfx, rec.code, hdrStr(rec.snap), body, rec.wrote, full.code, want)}
 	}
